@@ -48,6 +48,8 @@ class Exec:
         if isinstance(v, (list, tuple)):
             items = [self.canon(x) for x in v]
             return {"list": sorted(items, key=lambda x: json.dumps(x, sort_keys=True))}
+        if isinstance(v, dict) and set(v) == {"json"}:
+            return v
         if isinstance(v, (str, int, float, bool)) or v is None:
             return self.rel(v) if isinstance(v, str) else v
         return {"repr": type(v).__name__}
@@ -116,6 +118,12 @@ class Exec:
             return len(got)
         if k == "exists":
             return Sid(c["uri"]).exists()
+        if k == "get_data":
+            from spil import GetFromPaths
+            return {"json": json.dumps(GetFromPaths(c.get("config")).get_data(c["uri"]), sort_keys=True, default=repr)}
+        if k == "get_attr":
+            v = Sid(c["uri"]).get_attr(c["attribute"])
+            return {"json": json.dumps(v, sort_keys=True, default=repr)}
         if k == "create":
             from vp import tree
             t, f = c["entity"]
@@ -139,12 +147,16 @@ def main():
     from vp import confmodel, tree
     from vp.checks import c13
     model = confmodel.load()
-    fixed = c13.fixed_universe(model)
-    tree.reset(model)
-    for cname in model.paths:
-        tree.materialise(model, cname, fixed)
-    existing = tree.existing_set(model, model.default_config, fixed)
-    fixed_list = sorted(e[2] for e in existing.values())
+    reader_only = bool(os.environ.get("SPIL_VERIF_SHARED_CONF"))
+    if reader_only:
+        fixed, fixed_list = [], []
+    else:
+        fixed = c13.fixed_universe(model)
+        tree.reset(model)
+        for cname in model.paths:
+            tree.materialise(model, cname, fixed)
+        existing = tree.existing_set(model, model.default_config, fixed)
+        fixed_list = sorted(e[2] for e in existing.values())
     out = sys.stdout
     out.write(json.dumps({"ready": True, "hashseed": os.environ.get("PYTHONHASHSEED")}) + "\n")
     out.flush()
@@ -179,7 +191,7 @@ def main():
         with os.fdopen(r) as f:
             payload = f.read()
         os.waitpid(pid, 0)
-        if any(c.get("k") == "create" for c in req["calls"]):
+        if not reader_only and any(c.get("k") == "create" for c in req["calls"]):
             tree.reset(model)
             for cname in model.paths:
                 tree.materialise(model, cname, fixed)
